@@ -28,6 +28,11 @@ type bEngine struct {
 	inlined map[string]bool
 	ended  map[string]int
 	dyn    map[string]types.Type // interface parameter -> dynamic type fixed by the contract
+	storeCount int
+	maxPaths   int
+	allocMax   *big.Int
+	nilable    bool // pointer fields of symbolic inputs have a symbolic nil-ness
+	safety     bool // the contract asks for the run-time-panic obligations of make and slicing
 }
 
 const bMaxPaths = 400
@@ -91,12 +96,18 @@ func (e *bEngine) symVal(st *bState, name string, t types.Type) bVal {
 			o := &bObject{id: id, typ: u.Elem(), sym: name}
 			if _, isStruct := u.Elem().Underlying().(*types.Struct); isStruct {
 				o.root = &bStruct{typ: u.Elem(), sym: name, f: map[string]bVal{}}
-			} else if _, isArr := u.Elem().Underlying().(*types.Array); isArr {
-				o.root = &bStruct{typ: u.Elem(), sym: name, f: map[string]bVal{}}
+			} else if at, isArr := u.Elem().Underlying().(*types.Array); isArr {
+				// arrays are array objects so that they can be sliced
+				o.typ, o.arr, o.elems = at.Elem(), true, map[string]bVal{}
+				e.reg.meta[id] = bObjMeta{name: name, typ: at.Elem(), arr: true}
 			} else {
 				o.root = e.symVal(st, name+".*", u.Elem())
 			}
 			st.objs[id] = o
+		}
+		if e.nilable && strings.Contains(name, ".") && !strings.HasPrefix(name, "global:") {
+			// a pointer field of a symbolic input may be nil
+			return bPtr{obj: id, nilv: Var(name+".isnil", SBool)}
 		}
 		return bPtr{obj: id}
 	case *types.Struct, *types.Array:
@@ -108,8 +119,10 @@ func (e *bEngine) symVal(st *bState, name string, t types.Type) bVal {
 			st.objs[id] = &bObject{id: id, typ: u.Elem(), arr: true, sym: name, elems: map[string]bVal{}}
 		}
 		ln := Var(name+".len", SInt)
+		cp := Var(name+".cap", SInt)
 		st.assume(Le(ConstI(0), ln))
-		return bSlice{arr: id, len: ln}
+		st.assume(Le(ln, cp))
+		return bSlice{arr: id, len: ln, cap: cp}
 	case *types.Interface:
 		if dt, ok := e.dyn[name]; ok {
 			return &bIface{dyn: dt, val: e.symVal(st, name, dt), sym: name}
@@ -134,7 +147,7 @@ func (e *bEngine) zeroVal(t types.Type) bVal {
 	case *types.Struct, *types.Array:
 		return &bStruct{typ: t, f: map[string]bVal{}}
 	case *types.Slice:
-		return bSlice{nil_: true, len: ConstI(0)}
+		return bSlice{nil_: true, len: ConstI(0), cap: ConstI(0)}
 	case *types.Interface:
 		return &bIface{isNil: true}
 	}
@@ -258,6 +271,7 @@ func (e *bEngine) storeAt(st *bState, p bPtr, v bVal) {
 	comps := splitPath(p.path)
 	v = cloneVal(v)
 	if o.arr {
+		o.ver++
 		if len(comps) == 1 {
 			o.elems[comps[0]] = v
 			return
@@ -279,6 +293,8 @@ func (e *bEngine) storeIn(st *bState, cur bVal, comps []string, v bVal) {
 		if !ok {
 			panic(verr("store through non-struct"))
 		}
+		e.storeCount++
+		sv.ver = e.storeCount
 		if i == len(comps)-1 {
 			sv.f[c] = v
 			return
@@ -419,6 +435,9 @@ func (e *bEngine) refEq(x, y bVal) (*Term, bool) {
 	isNil := func(v bVal) (known bool, nilp bool) {
 		switch a := v.(type) {
 		case bPtr:
+			if a.nilv != nil {
+				return false, false
+			}
 			return true, a.obj == 0
 		case bSlice:
 			return true, a.nil_
@@ -432,6 +451,30 @@ func (e *bEngine) refEq(x, y bVal) (*Term, bool) {
 			return false, false
 		}
 		return false, false
+	}
+	for _, pr := range [][2]bVal{{x, y}, {y, x}} {
+		if op, ok := pr[0].(bOpaque); ok {
+			t, okT := opaqueNil(op)
+			if !okT {
+				continue
+			}
+			if k, n := isNil(pr[1]); k && n {
+				return t, true
+			}
+			if oq, ok := pr[1].(bOpaque); ok {
+				if tq, ok := opaqueNil(oq); ok && tq.IsTrue() {
+					return t, true
+				}
+			}
+		}
+	}
+	// a possibly-nil pointer against nil
+	for _, pr := range [][2]bVal{{x, y}, {y, x}} {
+		if pp, ok := pr[0].(bPtr); ok && pp.nilv != nil {
+			if k, n := isNil(pr[1]); k && n {
+				return pp.nilv, true
+			}
+		}
 	}
 	if px, ok := x.(bPtr); ok {
 		if py, ok := y.(bPtr); ok {
@@ -488,3 +531,13 @@ func (e *bEngine) polyID(st *bState, v bVal) (int, bool) {
 }
 
 var _ = types.Typ
+
+// nonNil: a dereference of a possibly-nil pointer continues on the path where it is not nil
+// (the other path ends in a run-time panic).
+func (e *bEngine) nonNil(st *bState, p bPtr) bPtr {
+	if p.nilv != nil {
+		st.assumeBranch(Not(p.nilv))
+		p.nilv = nil
+	}
+	return p
+}
